@@ -94,6 +94,10 @@ type EnumVal struct {
 	Desc string       `json:"desc,omitempty"`
 	Depr string       `json:"depr,omitempty"`
 	Dirs []AppliedDir `json:"dirs,omitempty"`
+	// GoVal: the Go value of this enum value is this string ("" = a struct that is no string). Some
+	// enums use their own names as values, some use strings that are the NAME of another value of
+	// the same enum (BETA has the value "STABLE", STABLE the value "LTS").
+	GoVal string `json:"go_val,omitempty"`
 }
 
 // TypeDef.Kind: scalar | object | interface | union | enum | input
@@ -257,7 +261,17 @@ type gen struct {
 	// top, so a string with a code point above U+FFFF may occur in it (open finding F-10b: the printed
 	// literal does not parse; losing a nullable position's default cannot change a verdict)
 	astralOK bool
+	// objDepth: how many input objects enclose the value being generated (0 = an object of the
+	// default's own type, reached through lists only)
+	objDepth int
 }
+
+// omitNestedDefaults: also leave out defaulted fields of input objects nested inside other input
+// objects of a default. On since repo-patches/C10/07 (a683152) is applied; before it GetSchemaDefinition
+// (patch 06) resolved the field defaults of the default's own input object type first, but not those
+// of input objects reached through a field that has no default of its own, so such a default was
+// rebuilt or dropped depending on Go map iteration order (finding F-10h).
+const omitNestedDefaults = true
 
 var descPool = []string{"", "", "a description", "multi\nline", "with \"quotes\" and \\ backslash", "ünïcödé ✓", " ", "x"}
 var deprPool = []string{"", "", "", "no longer supported", "use \"other\"", " ", "old\nreason"}
@@ -412,8 +426,9 @@ func (g *gen) str() string {
 var intPool = []int64{0, 1, -1, 7, 42, -2147483648, 2147483647, 100000}
 var floatPool = []float64{0, 1, -1, 0.5, -2.25, 1e21, 1e-7, 123456.789, 3.0e10, -1e-300, 1.7976931348623157e308, 5e-324}
 
-// value draws a value of type t in coercion normal form (what CoerceLiteral would produce for
-// the literal that denotes it): input objects carry every field that has a default.
+// value draws a value of type t, mostly in coercion normal form (what CoerceLiteral would produce
+// for the literal that denotes it: input objects carry every field that has a default); one in
+// five defaulted fields is left out (values.go normalForm gives what coercion makes of that).
 // top: this is the whole default (an explicit null is then written schema.Null).
 func (g *gen) value(t TRef, depth int, top bool) Val {
 	// a reference to an input object whose fields are not generated yet (itself or a later one):
@@ -444,13 +459,18 @@ func (g *gen) value(t TRef, depth int, top bool) Val {
 		v := Val{K: "obj", O: []ObjField{}}
 		for _, f := range in.Inputs {
 			switch {
+			case f.Def != nil && (g.objDepth == 0 || omitNestedDefaults) && g.r.Chance(1, 5):
+				// the configured default itself omits a field that has a default (not in coercion
+				// normal form): the printed literal omits it too, coercion fills it in
 			case f.Def != nil && g.r.Chance(1, 2) && (g.astralOK || !hasAstral(*f.Def)):
 				// omitted in the literal: coercion fills in the field's default
 				v.O = append(v.O, ObjField{Name: f.Name, V: *f.Def})
 			case !f.Type.nonNull() && f.Def == nil && (g.r.Chance(1, 2) || depth > 3):
 				// absent
 			default:
+				g.objDepth++
 				v.O = append(v.O, ObjField{Name: f.Name, V: g.value(f.Type, depth+1, false)})
+				g.objDepth--
 			}
 		}
 		return v
@@ -636,6 +656,16 @@ func genSDef(r *hx.Rand, o genOpts) *SDef {
 		t := TypeDef{Kind: "enum", Name: n, Desc: g.desc(), Feat: g.tfeat[n]}
 		for i, k := 0, r.Range(1, 4); i < k; i++ {
 			t.Values = append(t.Values, EnumVal{Name: fmt.Sprintf("V%d_%s", i, n), Desc: g.desc(), Depr: g.depr()})
+		}
+		switch r.Intn(3) {
+		case 0: // string values: the names themselves
+			for i := range t.Values {
+				t.Values[i].GoVal = t.Values[i].Name
+			}
+		case 1: // string values: the name of the next value (a name / value collision)
+			for i := range t.Values {
+				t.Values[i].GoVal = t.Values[(i+1)%len(t.Values)].Name
+			}
 		}
 		add(t)
 	}
